@@ -7,7 +7,9 @@ inside a function defined in src/typechecker.c (the printing helpers themselves 
 For every site: how the enclosing path reports the failure to its caller -- looking at the statements of the innermost
 enclosing block `{ ... }` of which the call statement is a direct child:
   Flag        the block assigns `<x>.has_error = true` / `<x>->has_error = true`; or the site is an emit_context_error call and
-              emit_context_error itself bumps a file-level counter that type_check reads in its return statement
+              emit_context_error itself bumps a file-level counter that type_check reads in its return statement; or the
+              block sets a local bool that the function returns AND every call of the function in the file is
+              `if (f(..)) <x>.has_error = true;` (reporting helper, e.g. report_duplicate_params)
   RetUnknown  a later statement of the block is `return TYPE_UNKNOWN;`
   RetFalse    a later statement of the block is `return false;` / `return NULL;` / `return 0;` (helper predicates)
   Neither     none of these: the diagnostic is printed and checking goes on as if nothing had happened
@@ -140,7 +142,18 @@ def sites_of(fn):
                                 break
                             if rk is not None:
                                 break            # returns something else first
-                out.append(dict(function=fn['name'], what=what, kind=kind, helper=(name == 'emit_context_error')))
+                result_var = None
+                if kind == 'Neither' and block is not None:
+                    # the block records the failure in a local bool (reporting helper: `found = true;`)
+                    for st in sts:
+                        st2 = _strip(st)
+                        if st2.get('kind') == 'BinaryOperator' and st2.get('opcode') == '=':
+                            lhs, rhs = _strip(st2['inner'][0]), _strip(st2['inner'][1])
+                            if lhs.get('kind') == 'DeclRefExpr' and (lhs.get('referencedDecl') or {}).get('kind') == 'VarDecl' and \
+                               ((rhs.get('kind') == 'CXXBoolLiteralExpr' and rhs.get('value')) or
+                                (rhs.get('kind') == 'IntegerLiteral' and rhs.get('value') == '1')):
+                                result_var = (lhs.get('referencedDecl') or {}).get('name')
+                out.append(dict(function=fn['name'], what=what, kind=kind, helper=(name == 'emit_context_error'), result_var=result_var))
         for c in node.get('inner', []) or []:
             if isinstance(c, dict):
                 if c.get('kind') == 'CompoundStmt':
@@ -177,9 +190,50 @@ def helper_counts_errors(tu):
     return False
 
 
+def reporting_helpers(tu):
+    """{function name: result variable} for functions `static bool f(..)` that end in `return <local>;` and whose EVERY call in
+    the file is the whole condition of an `if` whose then-branch assigns has_error (`if (f(x)) tc->has_error = true;`).
+    A diagnostic of such a function that sets that local to true in its block fails the compilation through its callers."""
+    cand = {}
+    for n in tu['inner']:
+        if n.get('kind') != 'FunctionDecl' or 'includedFrom' in n.get('loc', {}):
+            continue
+        body = [c for c in n.get('inner', []) if isinstance(c, dict) and c.get('kind') == 'CompoundStmt']
+        if not body or not (n.get('type', {}).get('qualType', '').startswith(('bool', '_Bool'))):
+            continue
+        sts = [c for c in body[0].get('inner', []) if isinstance(c, dict)]
+        if sts and sts[-1].get('kind') == 'ReturnStmt' and sts[-1].get('inner'):
+            v = _strip(sts[-1]['inner'][0])
+            if v.get('kind') == 'DeclRefExpr' and (v.get('referencedDecl') or {}).get('kind') == 'VarDecl':
+                cand[n['name']] = (v.get('referencedDecl') or {}).get('name')
+    if not cand:
+        return {}
+    calls = {f: 0 for f in cand}
+    good = {f: 0 for f in cand}
+
+    def walk(node):
+        if not isinstance(node, dict):
+            return
+        if node.get('kind') == 'IfStmt':
+            inner = [c for c in node.get('inner', []) if isinstance(c, dict)]
+            if len(inner) >= 2:
+                c = _strip(inner[0])
+                if c.get('kind') == 'CallExpr' and _callee(c) in cand and any(_is_flag_assign(x) for x in _walk(inner[1])):
+                    good[_callee(c)] += 1
+        if node.get('kind') == 'CallExpr' and _callee(node) in cand:
+            calls[_callee(node)] += 1
+        for c in node.get('inner', []) or []:
+            walk(c)
+    for n in tu['inner']:
+        if n.get('kind') == 'FunctionDecl' and 'includedFrom' not in n.get('loc', {}):
+            walk(n)
+    return {f: v for f, v in cand.items() if calls[f] > 0 and calls[f] == good[f]}
+
+
 def collect(b):
     tu = _ast(b)
     via_helper = helper_counts_errors(tu)
+    rep_helpers = reporting_helpers(tu)
     sites, drops = [], []
     for n in tu['inner']:
         if n.get('kind') != 'FunctionDecl' or not any(isinstance(c, dict) and c.get('kind') == 'CompoundStmt' for c in n.get('inner', [])):
@@ -190,6 +244,9 @@ def collect(b):
         if n['name'] in SKIP_FUNCS:
             continue
         s, d = sites_of(n)
+        for x in s:
+            if x['kind'] == 'Neither' and x.get('result_var') and rep_helpers.get(n['name']) == x['result_var']:
+                x['kind'] = 'Flag'
         if via_helper:
             for x in s:
                 if x['kind'] == 'Neither' and x.get('helper'):
